@@ -1,6 +1,8 @@
 /-
-  Saltpack.Model.SpecDecode — an independent *strict* reference decoder written
-  from specs/*.md only (constants from Spec.lean, not from the code):
+  Saltpack.Model.SpecDecode — a *strict* reference decoder written from
+  specs/*.md (constants from Spec.lean, not from the code; the MessagePack
+  encoder/parser, `be64`, `Prims` and the recipient types are SHARED with the
+  code model; the empty-chunk rule is the receivers', see below):
 
     * strict MessagePack: the bytes must be exactly the minimal encoding of what
       they parse to (checked by re-encoding), with exactly the specified types —
@@ -9,7 +11,20 @@
     * a twice-encoded header followed by payload packets;
     * the specified nonces, key boxes, recipient identifiers, MAC and signature
       inputs; EVERY recipient's authenticator is verified on every packet;
-    * chunks of at most 1 MiB, the final marker on the last packet only.
+    * chunks of at most 1 MiB, the final marker on the last packet only, and the
+      RECEIVERS' empty-chunk convention (`chunkRule`) — see below.
+
+  `chunkRule` is NOT a transcription of the specification text alone: it is the
+  rule the implementation's receivers enforce (Go `checkChunkState`, and
+  property C09's quantifier "chunks of 1 byte to 1 MiB"): V1 — exactly the last
+  chunk is empty; V2 — an empty chunk only as the sole chunk of the message.
+  Two divergences from specs/*.md (audit finding 6): (a) stricter than
+  saltpack_encryption_v2.md / saltpack_signcryption_v2.md, which never forbid an
+  empty non-sole chunk (`[([9],false),([],true)]` is refused); (b) laxer than
+  saltpack_signing_v2.md ("non-empty payload packets"): the V2 attached plan
+  `[([],true)]` (the empty message) is accepted.  "Accepts every message the
+  reference sender can emit" therefore means: for `Opts = {}` and plans obeying
+  `PlanOK` (which the Go sender's plans do, `C08_go_plan_obeys_chunk_rules`).
 
   It is an executable oracle for property C08 (run on the bytes the
   implementation emits); it is not used by the code model.  Core Lean only.
@@ -388,8 +403,11 @@ def showB (b : Bytes) : String :=
     let h (n : Nat) : Char := if n < 10 then Char.ofNat (48 + n) else Char.ofNat (87 + n)
     [h (x.toNat / 16), h (x.toNat % 16)]))
 
-/-- the chunk rules of the specifications for the packet at index `i`
-    (`last`: it is the last packet of the message) -/
+/-- the chunk rules for the packet at index `i` (`last`: it is the last packet
+    of the message): the 1 MiB limit and final-flag placement of the
+    specifications PLUS the receivers' empty-chunk convention (Go
+    `checkChunkState`; = C09's "chunks of 1 byte to 1 MiB") — see the file
+    header for the two divergences from the specification text -/
 def chunkRule (major : Int) (i : Nat) (last final : Bool) (chunk : Bytes) : R Unit :=
   if 1048576 < chunk.length then .error "chunk longer than 1 MiB"
   else if major = 1 then
